@@ -1602,6 +1602,20 @@ impl Linearizer {
             context.emit_constraint(lhs, op, rhs, name)?;
         }
 
+        // bounds that prove the model infeasible were used while lowering but are not
+        // all visible in the published domains: state the infeasibility explicitly
+        let already_contradictory = context.linear_constraints.iter().any(|constraint| {
+            constraint.lhs.values().all(|coefficient| *coefficient == 0.0)
+                && !comparison_holds(0.0, constraint.comparison, constraint.rhs)
+        });
+        if context.bounds.detected_infeasible() && !already_contradictory {
+            context.emit_constraint(
+                Exp::Number(0.0),
+                Comparison::Equal,
+                Exp::Number(1.0),
+                String::new(),
+            )?;
+        }
         let mut linear_constraints = std::mem::take(&mut context.linear_constraints);
         // only user-provided names need dedup; generated rows stay unnamed.
         // duplicates get a __{n} suffix, which is still valid rooc syntax, and
